@@ -99,7 +99,8 @@ TLaunch ==
   /\ Fail(<< <<Ev.id \notin DOMAIN lch, "launch_id_reused">>,
              <<Ev.c \in DOMAIN cmd /\ IsLaunchKind(cmd[Ev.c].kind) /\ (\E r \in running : r[2] = Ev.c), "launch_outside_its_command">>,
              <<\A i \in OpenLaunches : ~(lch[i].c = Ev.c /\ lch[i].g = Ev.g), "two_launches_of_command_on_one_gpu">>,
-             <<Ivl(Ev.own) \subseteq 0..(Ev.nwg - 1), "launch_share_outside_grid">> >>)
+             <<Ivl(Ev.own) \subseteq 0..(Ev.nwg - 1), "launch_share_outside_grid">>,
+             <<\A i \in LaunchesOf(Ev.c) : Ivl(lch[i].own) \cap Ivl(Ev.own) = {}, "work_group_owned_twice">> >>)
   /\ lch' = (Ev.id :> [g |-> Ev.g, c |-> Ev.c, nwg |-> Ev.nwg, own |-> Ev.own, mapped |-> {}, ndone |-> 0, open |-> TRUE]) @@ lch
   /\ clean' = {} /\ flushing' = {}
   /\ UNCHANGED <<running, cmd, pend, cfg>>
